@@ -28,7 +28,7 @@ ASSUMPTIONS = [
 ]
 COMPONENTS = c10.COMPONENTS | {"real_extra": ["filesystem (scratch dir) for targets and weights", "numba-compiled fitness functions"]}
 BUDGET = {"quick": {"n": 80, "wall": 115, "determinism": 2}, "thorough": {"n": 7000, "wall": 1700, "determinism": 6}}
-REQUIRED_REACH = ["algo:nlopt", "algo:sade", "algo:sga", "range:equal", "range:shifted", "range:unequal", "range:oob", "range:none", "weights:list", "weights:file", "pairs>1", "multi_readout", "fitness:sum_of_abs_residuals", "fitness:sum_of_squared_residuals", "fitness:reduced_chi_squared", "simulated_checked", "simulated_computed_under_scheduler", "evolutions>1"]
+REQUIRED_REACH = ["seeded_stochastic_model", "pipeline_seed_zero", "integer_typed_targets", "algo:nlopt", "algo:sade", "algo:sga", "range:equal", "range:shifted", "range:unequal", "range:oob", "range:none", "weights:list", "weights:file", "pairs>1", "multi_readout", "fitness:sum_of_abs_residuals", "fitness:sum_of_squared_residuals", "fitness:reduced_chi_squared", "simulated_checked", "simulated_computed_under_scheduler", "evolutions>1"]
 
 
 def generate(rng, tier):
@@ -80,6 +80,11 @@ def generate(rng, tier):
         if region < nfree + 2:
             m["fitness"], m["fitness_arguments"] = "sum_of_abs_residuals", None
     scn["direct_x_seed"] = rng.randrange(2**31)
+    if rng.random() < 0.3:
+        # a stochastic calibrated model under a pipeline seed (0 is a legal seed): the reported fitness and the returned
+        # simulated data belong to the seeded run
+        scn["pipeline"]["charge_collection"][0]["arguments"]["draws"] = rng.randint(1, 3)
+        m["pipeline_seed"] = rng.choice([0, 0, 7, 12345])
     return scn
 
 
@@ -131,6 +136,12 @@ def execute(scn, forced=None):
     if m["num_evolutions"] > 1:
         stats["evolutions>1"] = 1
     stats["algo:" + m["algorithm"]["type"]] = 1
+    if m.get("pipeline_seed") is not None:
+        stats["seeded_stochastic_model"] = 1
+        if m["pipeline_seed"] == 0:
+            stats["pipeline_seed_zero"] = 1
+    if m.get("target_dtype"):
+        stats["integer_typed_targets"] = 1
     feat = feat_of(scn)
     valid = kind in ("equal", "shifted", "none")
     under_sim = m["num_islands"] >= 2 and valid
